@@ -1128,8 +1128,9 @@ def stub_path(eng: Engine, ctx: Ctx, rid: str):
     raises = [e for e in under if e.kind == "raise"]
     ctx.check(len(stub_calls) == 1, rid, drv.qualname, "stub invoked when no definition exists", expected="exactly one call of the stub routine under `definition is None`",
               found=f"{len(stub_calls)} call(s)", **eng.loc(drv, drv.node))
-    ctx.check(len(rets) >= 1 and not raises, rid, drv.qualname, "stub path returns normally", expected="return, no raise",
-              found=f"{len(rets)} return(s), {len(raises)} raise(s)", **eng.loc(drv, (raises or rets or [se.effects[0]])[0].node))
+    falls_through = se.final is not None and not se.final.dead
+    ctx.check((len(rets) >= 1 or falls_through) and not raises, rid, drv.qualname, "stub path returns normally", expected="return (or normal completion), no raise",
+              found=f"{len(rets)} return(s), falls through: {falls_through}, {len(raises)} raise(s)", **eng.loc(drv, (raises or rets or [se.effects[0]])[0].node))
     other = [e for e in calls if not is_self_call(e.term, stub.name)]
     ctx.check(not other, rid, drv.qualname, "nothing else on the stub path", expected="only the stub call", found=", ".join(show(e.term)[:40] for e in other) or "-",
               **eng.loc(drv, (other or stub_calls or [se.effects[0]])[0].node))
